@@ -1,6 +1,6 @@
 #!/bin/bash
 # usage: confirm_seed.sh <name> <property> <outdir-from-subagent>
-# Confirms a sub-agent's seeded defect independently in a fresh scratch worktree of /repo (pinned commit):
+# Confirms a sub-agent's seeded defect independently in a fresh scratch worktree of /repo (current HEAD of /repo):
 # patch applies, builds, baseline suite passes (known-flaky tests ignored), demo fails with the patch and passes without.
 # On success stores /verif/seeded/<name>/{patch.diff,demo_test.go,meta.json}. The worktree is removed afterwards.
 set -u
@@ -8,7 +8,7 @@ name=$1; prop=$2; src=$3
 export GOFLAGS=-mod=mod GOPROXY=off GOSUMDB=off GOTOOLCHAIN=local
 wt=$(mktemp -d /tmp/confirm.XXXXXX)
 rmdir "$wt"
-git -C /repo worktree add -q --detach "$wt" 271484f || exit 2
+git -C /repo worktree add -q --detach "$wt" HEAD || exit 2
 cleanup() { git -C /repo worktree remove --force "$wt" >/dev/null 2>&1; rm -rf "$wt"; }
 trap cleanup EXIT
 log=$(mktemp)
